@@ -561,7 +561,39 @@ def r16_7(ctx, prog, crate):
               "stages reached: %s" % sorted(str(s) for s in stages), b.where(name_t), detail=sorted(str(s) for s in stages))
 
 
+def r16_8(ctx, prog, crate):
+    """Digit runs compare by numeric value and nothing else: Token::cmp returns, on the path where both tokens are digit
+    runs, exactly cmp_int(self.text, other.text) - no further tie-break inside the token (zero padding must leave two runs
+    of equal value equal, so that the following text and then location and kind decide) - and on every other path the plain
+    string comparison of the two texts."""
+    from lib.patheval import PathEval
+    b = prog.body("<util::sort::Token as std::cmp::Ord>::cmp", crate)
+    if not ctx.anchor("R16.8", "Ord for Token", 1 if b else 0, 1):
+        return
+    ctx.saw(b)
+    sums = PathEval(b).run()
+    if not ctx.check(bool(sums), "R16.8", ["Token::cmp", "readable"], "cannot summarise Token::cmp", b.where(0)):
+        return
+    texts = {(("arg", 1, ("text",)), ("arg", 2, ("text",)))}
+    both = 0
+    for s in sums:
+        ints = {a[1]: p for a, p in s.conds if a[0] == "bool" and a[1] in (("arg", 1, ("is_int",)), ("arg", 2, ("is_int",)))}
+        is_both = ints.get(("arg", 1, ("is_int",))) is True and ints.get(("arg", 2, ("is_int",))) is True
+        r = s.ret
+        if is_both:
+            both += 1
+            ok = r[0] == "site" and r[1] == "util::sort::cmp_int" and tuple(r[3]) in texts
+            ctx.check(ok, "R16.8", ["Token::cmp", "digit-runs", "numeric-value-only"],
+                      "two digit runs compare as %s, expected exactly cmp_int(self.text, other.text)" % (r[:2] if r[0] == "site" else r[0],), b.where(s.blocks[-1]))
+        else:
+            ok = r[0] == "site" and r[1].endswith("::cmp") and "str" in r[1] and tuple(r[3]) in texts
+            ctx.check(ok, "R16.8", ["Token::cmp", "text", "plain-string-order"],
+                      "a text token compares as %s, expected self.text.cmp(other.text)" % (r[:2] if r[0] == "site" else r[0],), b.where(s.blocks[-1]))
+    ctx.check(both >= 1, "R16.8", ["Token::cmp", "digit-run-path"], "no path of Token::cmp handles two digit runs", b.where(0))
+
+
 def run(ctx, prog, crate):
+    r16_8(ctx, prog, crate)
     r16_7(ctx, prog, crate)
     r16_6(ctx, prog, crate)
     r16_1(ctx, prog, crate)
